@@ -112,6 +112,8 @@ Proof.
 Qed.
 
 Inductive cellid := CHead | CType (n : name) | CEp (k : epkey).
+Global Instance cellid_eq_dec : EqDecision cellid.
+Proof. solve_decision. Defined.
 Definition op_cell (o : cellop) : cellid :=
   match o with OHead _ => CHead | OType n _ => CType n | OEp k _ => CEp k end.
 
@@ -148,4 +150,761 @@ Proof.
       (apply pair_equal_spec; split;
        [apply insert_commute; congruence
        |try reflexivity; try (apply partial_alter_commute; congruence)]).
+Qed.
+
+(* ------------------------------------------------------------------------------------------------ *)
+(* 3. the listener's steps as cell operations                                                        *)
+Inductive xatom :=
+| XHead (an : appname) (long : option name) (a : list entry)
+| XType (an : appname) (table : bool) (n : name) (a : list entry) (fs : list fielddecl)
+| XEnum (an : appname) (n : name) (a : list entry) (items : list (name * Z))
+| XEp (an : appname) (n : name) (a : list entry) (body : list stmt)
+| XEvent (an : appname) (n : name) (body : list stmt)
+| XMeth (an : appname) (x : epkey * list entry * list stmt)
+| XDots (an : appname).
+
+Definition x_app (x : xatom) : appname :=
+  match x with
+  | XHead an _ _ | XType an _ _ _ _ | XEnum an _ _ _ | XEp an _ _ _ | XEvent an _ _ | XMeth an _ | XDots an => an
+  end.
+
+Definition insert_fields (fs : list fielddecl) (fs0 : gmap name field) : gmap name field :=
+  fold_left (fun m fd => <[fd_name fd := mk_field fd]> m) fs fs0.
+Definition tattrs_step (a : list entry) (a0 : attrs) : attrs :=
+  match a with [] => a0 | _ => merge_tattrs (make_attrs a) a0 end.
+
+Definition type_g (mode : pkmode) (table : bool) (a : list entry) (fs : list fielddecl)
+    (t : option typeent) (p : option (list name)) : option typeent * option (list name) :=
+  match default (TRec table ∅ ∅) t with
+  | TRec rel a0 fs0 =>
+      let fs1 := insert_fields fs fs0 in
+      (Some (TRec rel (tattrs_step a a0) fs1), if rel then pk_update mode p (key_fields fs fs1) else p)
+  | TEnum a0 items => (Some (TEnum (tattrs_step a a0) items), p)
+  end.
+
+Definition x_op (mode : pkmode) (x : xatom) : cellop :=
+  match x with
+  | XHead _ long a =>
+      OHead (fun l at0 => (match long with Some y => Some y | None => l end,
+                           match a with [] => at0 | _ => merge_attrs (make_attrs a) at0 end))
+  | XType _ table n a fs => OType n (type_g mode table a fs)
+  | XEnum _ n a items =>
+      OType n (fun t p => match items with
+                          | [] => (t, p)
+                          | _ => (Some (TEnum (make_attrs a) (fold_left (fun m it => <[fst it := snd it]> m) items ∅)), None)
+                          end)
+  | XEp _ n a body =>
+      OEp (None, [n]) (fun e0 => let e := default (Ep false false ∅ []) e0 in
+             Some (Ep (e_pubsub e) (e_rest e)
+                      (match a with [] => e_attrs e | _ => merge_attrs (make_attrs a) (e_attrs e) end)
+                      (e_stmts e ++ body)))
+  | XEvent _ n body =>
+      OEp (None, [n]) (fun e0 => let e := default (Ep true false ∅ []) e0 in
+             Some (Ep (e_pubsub e) (e_rest e) (e_attrs e) (e_stmts e ++ body)))
+  | XMeth _ (k, a, body) =>
+      OEp k (fun e0 => let e := default (Ep false true ∅ []) e0 in
+             Some (Ep (e_pubsub e) (e_rest e)
+                      (merge_attrs (merge_attrs (make_attrs a) {[ patterns_key := VA [rest_tag] ]}) (e_attrs e))
+                      (e_stmts e ++ body)))
+  | XDots _ => OEp (None, [dots_name]) (fun _ => Some (Ep false false ∅ []))
+  end.
+
+Definition xstep (mode : pkmode) (s : state) (x : xatom) : state := apply_op (x_app x) (x_op mode x) s.
+
+Definition micro (x : atom) : list xatom :=
+  match x with
+  | AHead an long a => [XHead an long a]
+  | AMem an (MT table n a fs) => [XType an table n a fs]
+  | AMem an (ME n a items) => [XEnum an n a items]
+  | AMem an (MP n a body) => [XEp an n a body]
+  | AMem an (MV n body) => [XEvent an n body]
+  | AMem an (MR r) => XHead an None [] :: map (XMeth an) (rest_eps [] r)
+  | AMem an MW => [XDots an]
+  end.
+
+Lemma app_eta ap : App (a_long ap) (a_attrs ap) (a_types ap) (a_eps ap) = ap.
+Proof. destruct ap; reflexivity. Qed.
+
+Lemma meth_fold mode an l : forall ap m p,
+  fold_left (xstep mode) (map (XMeth an) l) (<[an := ap]> m, p)
+  = (<[an := fold_left (fun ap x => method_step x ap) l ap]> m, p).
+Proof.
+  induction l as [|[[k a] body] l IH]; intros ap m p; cbn [map fold_left]; [reflexivity|].
+  unfold xstep at 2, apply_op; cbn [x_app x_op fst snd].
+  rewrite cur_app_insert, insert_insert. rewrite IH. f_equal. f_equal. f_equal.
+  unfold method_step. f_equal.
+  unfold insert, map_insert. apply partial_alter_ext. intros x <-.
+  destruct (a_eps ap !! k); reflexivity.
+Qed.
+
+Lemma step_micro mode s x : step mode s x = fold_left (xstep mode) (micro x) s.
+Proof.
+  destruct s as [m p]. destruct x as [an long a|an mem]; [reflexivity|].
+  destruct mem as [table n a fs|n a items|n a body|n body|r|]; cbn [micro fold_left].
+  - (* table *)
+    unfold step, member_step, table_step, xstep, apply_op; cbn [x_app x_op fst snd].
+    unfold type_g, insert_fields, tattrs_step.
+    destruct (a_types (cur_app m an) !! n) as [[rel a0 fs0|a0 items]|] eqn:E;
+      cbn [default from_option id fst snd].
+    + destruct rel; cbn [fst snd].
+      * f_equal. apply partial_alter_ext. intros x <-. reflexivity.
+      * rewrite partial_alter_self. reflexivity.
+    + cbn [fst snd]. rewrite partial_alter_self. reflexivity.
+    + destruct table; cbn [fst snd].
+      * f_equal. apply partial_alter_ext. intros x <-. reflexivity.
+      * rewrite partial_alter_self. reflexivity.
+  - (* enum *)
+    unfold step, member_step, enum_step, xstep, apply_op; cbn [x_app x_op fst snd].
+    destruct items as [|it items]; cbn [fst snd].
+    + rewrite !partial_alter_self, app_eta. reflexivity.
+    + reflexivity.
+  - (* simple endpoint *)
+    unfold step, member_step, ep_step, xstep, apply_op; cbn [x_app x_op fst snd].
+    f_equal. f_equal. f_equal.
+    unfold insert, map_insert. apply partial_alter_ext. intros x <-.
+    destruct (a_eps (cur_app m an) !! (None, [n])); reflexivity.
+  - unfold step, member_step, event_step, xstep, apply_op; cbn [x_app x_op fst snd].
+    f_equal. f_equal. f_equal.
+    unfold insert, map_insert. apply partial_alter_ext. intros x <-.
+    destruct (a_eps (cur_app m an) !! (None, [n])); reflexivity.
+  - (* REST tree *)
+    unfold step, member_step; cbn [fst snd].
+    unfold xstep at 2, apply_op; cbn [x_app x_op fst snd]. rewrite app_eta.
+    rewrite meth_fold. reflexivity.
+  - reflexivity.
+Qed.
+
+Definition content (l : list atom) : list xatom := flat_map micro l.
+
+Lemma fold_left_flat_map {S A B} (f : S -> B -> S) (g : A -> list B) (h : S -> A -> S) :
+  (forall s a, h s a = fold_left f (g a) s) ->
+  forall l s, fold_left h l s = fold_left f (flat_map g l) s.
+Proof.
+  intros H l. induction l as [|a l IH]; intros s; cbn; [reflexivity|].
+  rewrite fold_left_app, <- H. apply IH.
+Qed.
+
+Lemma denote_atoms_content mode l : denote_atoms mode l = fold_left (xstep mode) (content l) (∅, ∅).
+Proof. unfold denote_atoms, content. apply fold_left_flat_map. intros; apply step_micro. Qed.
+
+(* ------------------------------------------------------------------------------------------------ *)
+(* 4. primary-key bookkeeping and the two facts about shares of one type                             *)
+Lemma in_names_In x l : in_names x l = true <-> In x l.
+Proof.
+  unfold in_names. rewrite existsb_exists. split.
+  - intros [y [Hy He]]. apply Pos.eqb_eq in He. subst. exact Hy.
+  - intros H. exists x. split; [exact H|apply Pos.eqb_refl].
+Qed.
+
+Lemma pk_union_prefix new : forall old, exists l, pk_union old new = old ++ l.
+Proof.
+  induction new as [|x new IH]; intros old; cbn.
+  - exists []. rewrite app_nil_r. reflexivity.
+  - unfold pk_union in *. cbn. unfold pk_add at 2. destruct (in_names x old).
+    + apply IH.
+    + destruct (IH (old ++ [x])) as [l Hl]. exists ([x] ++ l). rewrite Hl, <- app_assoc. reflexivity.
+Qed.
+
+Lemma pk_union_in new : forall old x, In x (pk_union old new) <-> In x old \/ In x new.
+Proof.
+  induction new as [|y new IH]; intros old x; cbn.
+  - tauto.
+  - unfold pk_union in *. cbn. rewrite IH. unfold pk_add. destruct (in_names y old) eqn:E.
+    + apply in_names_In in E. split; [tauto|]. intros [H|[->|H]]; auto.
+    + rewrite in_app_iff. cbn. tauto.
+Qed.
+
+Lemma pk_union_app old k1 k2 : pk_union old (k1 ++ k2) = pk_union (pk_union old k1) k2.
+Proof. unfold pk_union. apply fold_left_app. Qed.
+
+Lemma pk_union_nil_inv old new : pk_union old new = [] -> old = [].
+Proof. destruct (pk_union_prefix new old) as [l ->]. intros H. apply app_eq_nil in H. tauto. Qed.
+
+Lemma pk_update_union_default p kf : default [] (pk_update PkUnion p kf) = pk_union (default [] p) kf.
+Proof.
+  unfold pk_update. destruct (pk_union (default [] p) kf) eqn:E; [|reflexivity].
+  apply pk_union_nil_inv in E. exact E.
+Qed.
+
+Lemma pk_update_union_app p k1 k2 :
+  pk_update PkUnion p (k1 ++ k2) = pk_update PkUnion (pk_update PkUnion p k1) k2.
+Proof.
+  unfold pk_update at 1 2. rewrite pk_update_union_default, <- pk_union_app.
+  destruct (pk_union (default [] p) (k1 ++ k2)) eqn:E; [|reflexivity].
+  rewrite pk_union_app in E. apply pk_union_nil_inv in E.
+  unfold pk_update. rewrite E. reflexivity.
+Qed.
+
+Lemma pk_update_oeq mode p p' kf : oeq p p' -> oeq (pk_update mode p kf) (pk_update mode p' kf).
+Proof.
+  intros H. destruct mode.
+  - cbn. destruct kf; [exact H|reflexivity].
+  - intros x. rewrite !pk_update_union_default, !pk_union_in. rewrite (H x). reflexivity.
+  - cbn. destruct kf; [exact H|reflexivity].
+Qed.
+
+Definition names (fs : list fielddecl) : list name := map fd_name fs.
+
+Lemma insert_fields_app fs1 fs2 m : insert_fields (fs1 ++ fs2) m = insert_fields fs2 (insert_fields fs1 m).
+Proof. unfold insert_fields. apply fold_left_app. Qed.
+
+Lemma insert_fields_notin fs : forall m nm, ~ In nm (names fs) -> insert_fields fs m !! nm = m !! nm.
+Proof.
+  induction fs as [|fd fs IH]; intros m nm H; cbn; [reflexivity|].
+  cbn in H. rewrite IH by tauto. apply lookup_insert_ne. tauto.
+Qed.
+
+Lemma insert_fields_in fs : forall m m' nm, In nm (names fs) -> insert_fields fs m !! nm = insert_fields fs m' !! nm.
+Proof.
+  induction fs as [|fd fs IH]; intros m m' nm H; cbn; [destruct H|].
+  destruct (in_dec Pos.eq_dec nm (names fs)) as [Hin|Hout].
+  - apply IH, Hin.
+  - rewrite !insert_fields_notin by exact Hout.
+    destruct H as [<-|H]; [|contradiction]. rewrite !lookup_insert. reflexivity.
+Qed.
+
+Lemma key_fields_ext fs m m' : (forall nm, In nm (names fs) -> m !! nm = m' !! nm) -> key_fields fs m = key_fields fs m'.
+Proof.
+  unfold key_fields. induction fs as [|fd fs IH]; intros H; cbn; [reflexivity|].
+  rewrite (H (fd_name fd)) by (left; reflexivity). f_equal. apply IH. intros nm Hn. apply H. right. exact Hn.
+Qed.
+
+Lemma key_fields_app fs1 fs2 m : key_fields (fs1 ++ fs2) m = key_fields fs1 m ++ key_fields fs2 m.
+Proof. unfold key_fields. apply flat_map_app. Qed.
+
+Definition disjoint_names (l1 l2 : list name) : Prop := forall x, In x l1 -> In x l2 -> False.
+
+Lemma insert_fields_comm fs1 fs2 m : disjoint_names (names fs1) (names fs2) ->
+  insert_fields fs2 (insert_fields fs1 m) = insert_fields fs1 (insert_fields fs2 m).
+Proof.
+  intros Hd. apply map_eq. intros nm.
+  destruct (in_dec Pos.eq_dec nm (names fs1)) as [H1|H1]; destruct (in_dec Pos.eq_dec nm (names fs2)) as [H2|H2].
+  - destruct (Hd nm H1 H2).
+  - rewrite (insert_fields_notin fs2) by exact H2. apply insert_fields_in, H1.
+  - rewrite (insert_fields_notin fs1 (insert_fields fs2 m)) by exact H2 || exact H1. apply insert_fields_in, H2.
+  - rewrite !insert_fields_notin by assumption. reflexivity.
+Qed.
+
+(* the own key fields of a share do not depend on what the table held before *)
+Lemma key_fields_own fs m m' : key_fields fs (insert_fields fs m) = key_fields fs (insert_fields fs m').
+Proof. apply key_fields_ext. intros nm H. apply insert_fields_in, H. Qed.
+
+Definition seq_g (g1 g2 : option typeent -> option (list name) -> option typeent * option (list name)) :=
+  fun t p => let r1 := g1 t p in g2 (fst r1) (snd r1).
+
+Lemma apply_seq_type an n g1 g2 s :
+  apply_op an (OType n g2) (apply_op an (OType n g1) s) = apply_op an (OType n (seq_g g1 g2)) s.
+Proof.
+  destruct s as [m p]. unfold apply_op; cbn [fst snd].
+  rewrite cur_app_insert; cbn [a_long a_attrs a_types a_eps].
+  rewrite !lookup_partial_alter, insert_insert.
+  unfold seq_g. cbn zeta.
+  rewrite <- !partial_alter_compose. reflexivity.
+Qed.
+
+Lemma apply_ext_type an n g g' s :
+  (forall t p, fst (g t p) = fst (g' t p) /\ oeq (snd (g t p)) (snd (g' t p))) ->
+  Req (apply_op an (OType n g) s) (apply_op an (OType n g') s).
+Proof.
+  intros H. destruct s as [m p]. unfold apply_op; cbn [fst snd].
+  destruct (H (a_types (cur_app m an) !! n) (p !! (an, n))) as [H1 H2].
+  split; cbn [fst snd]; [rewrite H1; reflexivity|].
+  intros k. destruct (decide (k = (an, n))) as [->|Hne].
+  - rewrite !lookup_partial_alter. exact H2.
+  - rewrite !lookup_partial_alter_ne by congruence. reflexivity.
+Qed.
+
+Lemma type_g_fusion table a fs1 fs2 : disjoint_names (names fs1) (names fs2) ->
+  forall t p, type_g PkUnion table a (fs1 ++ fs2) t p = seq_g (type_g PkUnion table a fs1) (type_g PkUnion table [] fs2) t p.
+Proof.
+  intros Hd t p. unfold seq_g, type_g.
+  destruct (default (TRec table ∅ ∅) t) as [rel a0 fs0|a0 items]; cbn [fst snd default from_option id tattrs_step].
+  - rewrite insert_fields_app. f_equal.
+    destruct rel; [|reflexivity].
+    rewrite key_fields_app, pk_update_union_app. f_equal. f_equal.
+    apply key_fields_ext. intros nm Hn. apply insert_fields_notin. intros H2. exact (Hd nm Hn H2).
+  - reflexivity.
+Qed.
+
+Lemma type_g_comm table a1 fs1 a2 fs2 : disjoint_names (names fs1) (names fs2) -> a1 = [] \/ a2 = [] ->
+  forall t p,
+    fst (seq_g (type_g PkUnion table a1 fs1) (type_g PkUnion table a2 fs2) t p)
+      = fst (seq_g (type_g PkUnion table a2 fs2) (type_g PkUnion table a1 fs1) t p)
+    /\ oeq (snd (seq_g (type_g PkUnion table a1 fs1) (type_g PkUnion table a2 fs2) t p))
+           (snd (seq_g (type_g PkUnion table a2 fs2) (type_g PkUnion table a1 fs1) t p)).
+Proof.
+  intros Hd Ha t p. unfold seq_g, type_g.
+  assert (Hat : forall a0, tattrs_step a2 (tattrs_step a1 a0) = tattrs_step a1 (tattrs_step a2 a0)).
+  { intros a0. destruct Ha as [-> | ->]; reflexivity. }
+  destruct (default (TRec table ∅ ∅) t) as [rel a0 fs0|a0 items]; cbn [fst snd default from_option id].
+  - split.
+    + rewrite Hat, (insert_fields_comm fs1 fs2) by exact Hd. reflexivity.
+    + destruct rel; [|reflexivity].
+      intros x. rewrite !pk_update_union_default, !pk_union_in.
+      rewrite (key_fields_own fs2 (insert_fields fs1 fs0) fs0), (key_fields_own fs1 (insert_fields fs2 fs0) fs0). tauto.
+  - rewrite Hat. split; reflexivity.
+Qed.
+
+(* ------------------------------------------------------------------------------------------------ *)
+(* 5. independence of declarations, commutation, well-formed contents                                *)
+Definition x_cellid (x : xatom) : cellid :=
+  match x with
+  | XHead _ _ _ => CHead
+  | XType _ _ n _ _ | XEnum _ n _ _ => CType n
+  | XEp _ n _ _ | XEvent _ n _ => CEp (None, [n])
+  | XMeth _ (k, _, _) => CEp k
+  | XDots _ => CEp (None, [dots_name])
+  end.
+Definition x_cell (x : xatom) : appname * cellid := (x_app x, x_cellid x).
+
+Lemma op_cell_x mode x : op_cell (x_op mode x) = x_cellid x.
+Proof. destruct x as [| | | | |? [[? ?] ?]|]; reflexivity. Qed.
+
+(* two declarations on the SAME cell that may still be reordered: shares of one type with disjoint field
+   names, the same kind and attributes on at most one of them; headers of which one is a bare re-opening *)
+Definition frag_compat (x y : xatom) : Prop :=
+  match x, y with
+  | XType an t n a fs, XType an' t' n' a' fs' =>
+      an = an' /\ n = n' /\ t = t' /\ (a = [] \/ a' = []) /\ disjoint_names (names fs) (names fs')
+  | XHead an l a, XHead an' l' a' => an = an' /\ ((l = None /\ a = []) \/ (l' = None /\ a' = []))
+  | _, _ => False
+  end.
+Definition indep (x y : xatom) : Prop := x_cell x <> x_cell y \/ frag_compat x y.
+
+Lemma indep_sym x y : indep x y -> indep y x.
+Proof.
+  intros [H|H]; [left; congruence|right].
+  destruct x, y; cbn in *; try contradiction.
+  - destruct H as [-> H]. split; [reflexivity|tauto].
+  - destruct H as (-> & -> & -> & Ha & Hd). repeat split; [tauto|]. intros x H1 H2. exact (Hd x H2 H1).
+Qed.
+
+Lemma good_x mode x : good_op (x_op mode x).
+Proof.
+  destruct x as [| an table n a fs | an n a items | | |? [[? ?] ?]|]; cbn; try exact I.
+  - intros t p p' Hp. unfold type_g.
+    destruct (default (TRec table ∅ ∅) t) as [rel a0 fs0|a0 its]; cbn [fst snd].
+    + split; [reflexivity|]. destruct rel; [apply pk_update_oeq, Hp|exact Hp].
+    + split; [reflexivity|exact Hp].
+  - intros t p p' Hp. destruct items; cbn [fst snd]; split; try reflexivity. exact Hp.
+Qed.
+
+Lemma xstep_proper mode s s' x : Req s s' -> Req (xstep mode s x) (xstep mode s' x).
+Proof. apply apply_proper, good_x. Qed.
+
+Lemma head_touch_comm mode an l a s :
+  xstep mode (xstep mode s (XHead an l a)) (XHead an None []) = xstep mode (xstep mode s (XHead an None [])) (XHead an l a).
+Proof.
+  destruct s as [m p]. unfold xstep, apply_op; cbn [x_app x_op fst snd].
+  rewrite !cur_app_insert; cbn [a_long a_attrs a_types a_eps]. rewrite !insert_insert. reflexivity.
+Qed.
+
+Lemma xstep_comm s x y : indep x y ->
+  Req (xstep PkUnion (xstep PkUnion s x) y) (xstep PkUnion (xstep PkUnion s y) x).
+Proof.
+  intros [Hc|Hf].
+  - unfold xstep. rewrite apply_comm_ne; [reflexivity|]. rewrite !op_cell_x. unfold x_cell in Hc. congruence.
+  - destruct x as [an l a|an t n a fs| | | | |], y as [an' l' a'|an' t' n' a' fs'| | | | |]; cbn in Hf; try contradiction.
+    + destruct Hf as [<- [[-> ->]|[-> ->]]].
+      * rewrite head_touch_comm. reflexivity.
+      * rewrite head_touch_comm. reflexivity.
+    + destruct Hf as (<- & <- & <- & Ha & Hd).
+      unfold xstep; cbn [x_app x_op]. rewrite !apply_seq_type.
+      apply apply_ext_type. apply type_g_comm; assumption.
+Qed.
+
+(* a bare re-opening header commutes with every declaration, and is absorbed once its app exists *)
+Lemma touch_comm mode an s x :
+  xstep mode (xstep mode s (XHead an None [])) x = xstep mode (xstep mode s x) (XHead an None []).
+Proof.
+  destruct (decide (x_cell (XHead an None []) = x_cell x)) as [He|Hne].
+  - destruct x as [| | | | |? [[? ?] ?]|]; unfold x_cell in He; cbn in He; try discriminate.
+    inversion He; subst. symmetry. apply head_touch_comm.
+  - unfold xstep. apply apply_comm_ne. rewrite !op_cell_x. exact (fun H => Hne (eq_sym H)).
+Qed.
+
+Lemma touch_absorbed mode s x :
+  xstep mode (xstep mode s x) (XHead (x_app x) None []) = xstep mode s x.
+Proof.
+  destruct s as [m p]. unfold xstep at 1. unfold apply_op at 1. cbn [x_app x_op fst snd].
+  rewrite app_eta.
+  assert (H : fst (xstep mode (m, p) x) !! x_app x = Some (cur_app (fst (xstep mode (m, p) x)) (x_app x))).
+  { unfold xstep, apply_op. destruct (x_op mode x); cbn [fst]; rewrite cur_app_insert, lookup_insert; reflexivity. }
+  rewrite insert_id by exact H. destruct (xstep mode (m, p) x); reflexivity.
+Qed.
+
+Lemma touch_fold mode an l : forall s,
+  fold_left (xstep mode) l (xstep mode s (XHead an None [])) = xstep mode (fold_left (xstep mode) l s) (XHead an None []).
+Proof. induction l as [|x l IH]; intros s; cbn [fold_left]; [reflexivity|]. rewrite touch_comm. apply IH. Qed.
+
+Lemma touch_redundant mode an l s : (exists x, In x l /\ x_app x = an) ->
+  fold_left (xstep mode) (XHead an None [] :: l) s = fold_left (xstep mode) l s.
+Proof.
+  intros [x [Hin <-]]. apply in_split in Hin. destruct Hin as [l1 [l2 ->]].
+  cbn [fold_left]. rewrite !fold_left_app. cbn [fold_left].
+  rewrite touch_fold, touch_comm, touch_absorbed. reflexivity.
+Qed.
+
+(* ---- well-formed contents and the layouts of one specification ---- *)
+Definition wf_x (x : xatom) : Prop :=
+  match x with XType _ _ _ _ fs => NoDup (names fs) | _ => True end.
+Definition wf (l : list xatom) : Prop := pairwise indep l /\ Forall wf_x l.
+
+Inductive refines : list xatom -> list xatom -> Prop :=
+| rf_perm l l' : Permutation l l' -> refines l l'
+| rf_split an t n a fs1 fs2 l :
+    refines (XType an t n a (fs1 ++ fs2) :: l) (XType an t n a fs1 :: XType an t n [] fs2 :: l)
+| rf_fields an t n a fs fs' l : Permutation fs fs' ->
+    refines (XType an t n a fs :: l) (XType an t n a fs' :: l)
+| rf_reopen an l : (exists x, In x l /\ x_app x = an) -> refines l (XHead an None [] :: l)
+| rf_trans l1 l2 l3 : refines l1 l2 -> refines l2 l3 -> refines l1 l3.
+
+Lemma NoDup_app_disjoint fs1 fs2 : NoDup (names (fs1 ++ fs2)) -> disjoint_names (names fs1) (names fs2).
+Proof.
+  unfold names. rewrite map_app. intros H x H1 H2.
+  apply NoDup_app in H. destruct H as (_ & Hd & _).
+  apply (Hd x); apply elem_of_list_In; assumption.
+Qed.
+
+Lemma names_perm fs fs' : Permutation fs fs' -> Permutation (names fs) (names fs').
+Proof. apply Permutation_map. Qed.
+
+Lemma insert_fields_perm fs fs' : Permutation fs fs' -> NoDup (names fs) ->
+  forall m, insert_fields fs m = insert_fields fs' m.
+Proof.
+  induction 1 as [|x l l' Hp IH|x y l|l l' l'' Hp1 IH1 Hp2 IH2]; intros Hnd m.
+  - reflexivity.
+  - cbn. apply IH. cbn in Hnd. apply NoDup_cons in Hnd. tauto.
+  - cbn. f_equal. apply insert_commute. cbn in Hnd.
+    apply NoDup_cons in Hnd. destruct Hnd as [Hn _]. intros E. apply Hn. rewrite E. left.
+  - rewrite IH1 by exact Hnd. apply IH2. rewrite <- (names_perm _ _ Hp1). exact Hnd.
+Qed.
+
+Lemma type_g_perm table a fs fs' : Permutation fs fs' -> NoDup (names fs) ->
+  forall t p, fst (type_g PkUnion table a fs t p) = fst (type_g PkUnion table a fs' t p)
+           /\ oeq (snd (type_g PkUnion table a fs t p)) (snd (type_g PkUnion table a fs' t p)).
+Proof.
+  intros Hp Hnd t p. unfold type_g.
+  destruct (default (TRec table ∅ ∅) t) as [rel a0 fs0|a0 items]; cbn [fst snd]; [|split; reflexivity].
+  rewrite (insert_fields_perm fs fs' Hp Hnd). split; [reflexivity|].
+  destruct rel; [|reflexivity].
+  intros x. rewrite !pk_update_union_default, !pk_union_in.
+  assert (Hk : Permutation (key_fields fs (insert_fields fs' fs0)) (key_fields fs' (insert_fields fs' fs0))).
+  { unfold key_fields. apply Permutation_flat_map, Hp. }
+  split; (intros [H|H]; [left; exact H|right]); [eapply Permutation_in; [exact Hk|exact H]|].
+  eapply Permutation_in; [symmetry; exact Hk|exact H].
+Qed.
+
+Lemma refines_wf l l' : refines l l' -> wf l -> wf l'.
+Proof.
+  induction 1 as [l l' Hp|an t n a fs1 fs2 l|an t n a fs fs' l Hp|an l Hx|l1 l2 l3 _ IH1 _ IH2]; intros [Hpw Hwf].
+  - split; [eapply pairwise_perm; [exact indep_sym|exact Hp|exact Hpw]|eapply Permutation_Forall; eassumption].
+  - inversion Hpw as [|? ? Hf Hl]; subst. inversion Hwf as [|? ? Hnd Hwl]; subst. cbn in Hnd.
+    pose proof (NoDup_app_disjoint _ _ Hnd) as Hd.
+    assert (Hsub : forall (fs' : list fielddecl) (a' : list entry),
+              (a' = a \/ a' = []) -> (forall x, In x (names fs') -> In x (names (fs1 ++ fs2))) ->
+              Forall (indep (XType an t n a' fs')) l).
+    { intros fs' a' Ha' Hs. eapply Forall_impl; [exact Hf|]. intros y [Hc|Hc]; [left; exact Hc|right].
+      destruct y; cbn in Hc |- *; try contradiction.
+      destruct Hc as (-> & -> & -> & Haa & Hdd). repeat split.
+      - destruct Ha' as [-> | ->]; tauto.
+      - intros x H1 H2. exact (Hdd x (Hs x H1) H2). }
+    split.
+    + constructor.
+      * constructor.
+        -- right. cbn. repeat split; [tauto|exact Hd].
+        -- apply Hsub; [tauto|]. intros x Hx. unfold names. rewrite map_app. apply in_or_app. left; exact Hx.
+      * constructor; [|exact Hl].
+        apply Hsub; [tauto|]. intros x Hx. unfold names. rewrite map_app. apply in_or_app. right; exact Hx.
+    + unfold names in Hnd. rewrite map_app in Hnd. apply NoDup_app in Hnd. destruct Hnd as (Hn1 & _ & Hn2).
+      constructor; [exact Hn1|]. constructor; [exact Hn2|exact Hwl].
+  - inversion Hpw as [|? ? Hf Hl]; subst. inversion Hwf as [|? ? Hnd Hwl]; subst. cbn in Hnd.
+    split.
+    + constructor; [|exact Hl]. eapply Forall_impl; [exact Hf|]. intros y [Hc|Hc]; [left; exact Hc|right].
+      destruct y; cbn in Hc |- *; try contradiction.
+      destruct Hc as (-> & -> & -> & Haa & Hdd). repeat split; [exact Haa|].
+      intros x H1 H2. apply (Hdd x); [|exact H2].
+      eapply Permutation_in; [symmetry; apply names_perm, Hp|exact H1].
+    + constructor; [|exact Hwl]. cbn. rewrite <- (names_perm _ _ Hp). exact Hnd.
+  - split; [|constructor; [exact I|exact Hwf]].
+    constructor; [|exact Hpw]. apply Forall_forall. intros y _.
+    destruct (decide (x_cell (XHead an None []) = x_cell y)) as [He|Hne]; [right|left; exact Hne].
+    destruct y as [| | | | |? [[? ?] ?]|]; unfold x_cell in He; cbn in He; try discriminate. inversion He; subst. cbn. tauto.
+  - apply IH2, IH1. split; assumption.
+Qed.
+
+Theorem refines_sound l l' : refines l l' -> wf l ->
+  forall s s', Req s s' -> Req (fold_left (xstep PkUnion) l s) (fold_left (xstep PkUnion) l' s').
+Proof.
+  induction 1 as [l l' Hp|an t n a fs1 fs2 l|an t n a fs fs' l Hp|an l Hx|l1 l2 l3 H1 IH1 H2 IH2]; intros Hw s s' Hs.
+  - destruct Hw as [Hpw _].
+    eapply (fold_perm Req (xstep PkUnion) indep); eauto using indep_sym, xstep_comm.
+    intros; apply xstep_proper; assumption.
+  - destruct Hw as [_ Hwf]. inversion Hwf as [|? ? Hnd _]; subst. cbn in Hnd.
+    cbn [fold_left]. apply (fold_proper Req (xstep PkUnion)); [intros; apply xstep_proper; assumption|].
+    unfold xstep at 2 3; cbn [x_app x_op]. rewrite apply_seq_type.
+    etransitivity; [apply xstep_proper, Hs|]. unfold xstep; cbn [x_app x_op].
+    apply apply_ext_type. intros t0 p0.
+    rewrite type_g_fusion by (apply NoDup_app_disjoint, Hnd). split; reflexivity.
+  - destruct Hw as [_ Hwf]. inversion Hwf as [|? ? Hnd _]; subst. cbn in Hnd.
+    cbn [fold_left]. apply (fold_proper Req (xstep PkUnion)); [intros; apply xstep_proper; assumption|].
+    etransitivity; [apply xstep_proper, Hs|]. unfold xstep; cbn [x_app x_op].
+    apply apply_ext_type. apply type_g_perm; assumption.
+  - rewrite touch_redundant by exact Hx.
+    apply (fold_proper Req (xstep PkUnion)); [intros; apply xstep_proper; assumption|exact Hs].
+  - etransitivity; [apply IH1; [exact Hw|reflexivity]|].
+    apply IH2; [eapply refines_wf; eassumption|exact Hs].
+Qed.
+
+(* ------------------------------------------------------------------------------------------------ *)
+(* 6. files of the import closure: the flatten order is a duplicate-free list of existing files      *)
+Definition all_reached (files : list filedesc) (root : name) : bool :=
+  forallb (fun f => in_names (fst f) (flatten_order files root)) files.
+Definition all_blocks (files : list filedesc) : list block := flat_map (fun f => snd (snd f)) files.
+Definition blocks_of (files : list filedesc) (f : name) : list block :=
+  match file_lookup files f with Some (_, bs) => bs | None => [] end.
+
+Definition flat_ok (files : list filedesc) (acc : list name) : Prop :=
+  NoDup acc /\ forall x, x ∈ acc -> is_Some (file_lookup files x).
+
+Lemma flatten_ok files fuel : forall f acc, flat_ok files acc -> flat_ok files (flatten fuel files f acc).
+Proof.
+  induction fuel as [|k IH]; intros f acc Hok; cbn; [exact Hok|].
+  destruct (in_names f acc) eqn:Ein; [exact Hok|].
+  destruct (file_lookup files f) as [[imps bs]|] eqn:El; [|exact Hok].
+  assert (Hok' : flat_ok files (acc ++ [f])).
+  { destruct Hok as [Hnd Hl]. split.
+    - apply NoDup_app. split; [exact Hnd|]. split; [|apply NoDup_singleton].
+      intros x Hx Hf. apply elem_of_list_singleton in Hf. subst x.
+      apply elem_of_list_In, in_names_In in Hx. congruence.
+    - intros x Hx. apply elem_of_app in Hx. destruct Hx as [Hx|Hx]; [apply Hl, Hx|].
+      apply elem_of_list_singleton in Hx. subst x. rewrite El. eexists; reflexivity. }
+  clear Hok Ein El. revert Hok'. generalize (acc ++ [f]). clear acc.
+  induction imps as [|i imps IHi]; intros acc Hok; cbn; [exact Hok|].
+  apply IHi, IH, Hok.
+Qed.
+
+Lemma file_lookup_in files f v : file_lookup files f = Some v -> In (f, v) files.
+Proof.
+  unfold file_lookup. destruct (find (fun p => Pos.eqb (fst p) f) files) as [[f' v']|] eqn:E; [|discriminate].
+  intros [= <-]. apply find_some in E. destruct E as [Hin He]. cbn in He. apply Pos.eqb_eq in He. subst. exact Hin.
+Qed.
+
+Lemma blocks_of_names files : NoDup (map fst files) ->
+  flat_map (blocks_of files) (map fst files) = all_blocks files.
+Proof.
+  induction files as [|[f0 [i0 b0]] fs IH]; intros Hnd; [reflexivity|].
+  cbn [map fst] in Hnd. apply NoDup_cons in Hnd. destruct Hnd as [Hn Hnd].
+  cbn [map flat_map fst snd all_blocks]. unfold blocks_of at 1, file_lookup. cbn [find fst]. rewrite Pos.eqb_refl. cbn [snd].
+  f_equal. fold (all_blocks fs). rewrite <- (IH Hnd). clear IH.
+  assert (H : forall l, (forall x, In x l -> x <> f0) -> flat_map (blocks_of ((f0, (i0, b0)) :: fs)) l = flat_map (blocks_of fs) l).
+  { induction l as [|x l IHl]; intros Hx; [reflexivity|]. cbn [flat_map]. rewrite IHl by (intros y Hy; apply Hx; right; exact Hy).
+    f_equal. unfold blocks_of, file_lookup. cbn [find fst].
+    destruct (Pos.eqb f0 x) eqn:E; [|reflexivity]. apply Pos.eqb_eq in E. subst. exfalso. apply (Hx x); [left|]; reflexivity. }
+  apply H. intros x Hx ->. apply Hn, elem_of_list_In, Hx.
+Qed.
+
+Lemma flatten_perm files root : NoDup (map fst files) -> all_reached files root = true ->
+  Permutation (blocks_in_order files (flatten_order files root)) (all_blocks files).
+Proof.
+  intros Hnd Hall. rewrite <- (blocks_of_names files Hnd).
+  change (blocks_in_order files (flatten_order files root)) with (flat_map (blocks_of files) (flatten_order files root)).
+  apply Permutation_flat_map.
+  destruct (flatten_ok files (Datatypes.S (length files)) root []) as [Hn Hl].
+  { split; [apply NoDup_nil_2|]. intros x Hx. apply elem_of_nil in Hx. destruct Hx. }
+  fold (flatten_order files root) in Hn, Hl.
+  apply NoDup_Permutation; [exact Hn|exact Hnd|]. intros x. split; intros Hx.
+  - destruct (Hl x Hx) as [v Hv]. apply file_lookup_in in Hv. apply elem_of_list_In.
+    change x with (fst (x, v)). apply in_map, Hv.
+  - apply elem_of_list_In in Hx. apply in_map_iff in Hx. destruct Hx as [fd [<- Hin]].
+    unfold all_reached in Hall. rewrite forallb_forall in Hall. apply elem_of_list_In, in_names_In, Hall, Hin.
+Qed.
+
+(* ------------------------------------------------------------------------------------------------ *)
+(* 7. the property                                                                                   *)
+Definition bcontent (bs : list block) : list xatom := content (flat_map atoms_of_block bs).
+
+Lemma denote_blocks_content mode bs : denote_blocks mode bs = fold_left (xstep mode) (bcontent bs) (∅, ∅).
+Proof. unfold denote_blocks. apply denote_atoms_content. Qed.
+
+Lemma bcontent_perm bs bs' : Permutation bs bs' -> Permutation (bcontent bs) (bcontent bs').
+Proof. intros H. unfold bcontent, content. apply Permutation_flat_map, Permutation_flat_map, H. Qed.
+
+(* HEADLINE.  `joined` is any block list with well-formed content (in particular: one block per app, every
+   member once).  `files` is any set of files whose blocks, taken together, declare the same things: obtained
+   from the joined content by permuting declarations, splitting the fields of a type over several shares,
+   permuting the fields inside a type and adding bare re-opening headers - in any import graph that reaches every
+   file (any order of import statements, any assignment of blocks to files).  Then the compiled models agree;
+   primary-key lists agree as sets. *)
+Theorem merge_partition_invariant files root joined :
+  NoDup (map fst files) -> all_reached files root = true ->
+  wf (bcontent joined) -> refines (bcontent joined) (bcontent (all_blocks files)) ->
+  Req (denote_files PkUnion files root) (denote_blocks PkUnion joined).
+Proof.
+  intros Hnd Hall Hwf Href. unfold denote_files. rewrite !denote_blocks_content. symmetry.
+  apply refines_sound; [|exact Hwf|reflexivity].
+  eapply rf_trans; [exact Href|]. apply rf_perm, bcontent_perm. symmetry. apply flatten_perm; assumption.
+Qed.
+
+(* two layouts of one specification agree with each other *)
+Corollary merge_layouts_agree files root files' root' joined :
+  NoDup (map fst files) -> all_reached files root = true ->
+  NoDup (map fst files') -> all_reached files' root' = true ->
+  wf (bcontent joined) ->
+  refines (bcontent joined) (bcontent (all_blocks files)) -> refines (bcontent joined) (bcontent (all_blocks files')) ->
+  Req (denote_files PkUnion files root) (denote_files PkUnion files' root').
+Proof.
+  intros. etransitivity; [eapply merge_partition_invariant; eassumption|].
+  symmetry. eapply merge_partition_invariant; eassumption.
+Qed.
+
+(* ---- whatever ExitTable does with the key: everything except the primary keys is invariant ---- *)
+Lemma fst_xstep_mode mode mode' s s' x : fst s = fst s' -> fst (xstep mode s x) = fst (xstep mode' s' x).
+Proof.
+  destruct s as [m p], s' as [m' p']. cbn [fst]. intros <-.
+  destruct x as [| an table n a fs | an n a items | | |? [[? ?] ?]|]; try reflexivity.
+  - unfold xstep, apply_op; cbn [x_app x_op fst snd]. unfold type_g.
+    destruct (default (TRec table ∅ ∅) (a_types (cur_app m an) !! n)); reflexivity.
+  - unfold xstep, apply_op; cbn [x_app x_op fst snd]. destruct items; reflexivity.
+Qed.
+
+Lemma fst_fold_mode mode mode' l : forall s s', fst s = fst s' ->
+  fst (fold_left (xstep mode) l s) = fst (fold_left (xstep mode') l s').
+Proof. induction l as [|x l IH]; intros s s' H; cbn [fold_left]; [exact H|]. apply IH, fst_xstep_mode, H. Qed.
+
+Theorem merge_fields_partial mode files root joined :
+  NoDup (map fst files) -> all_reached files root = true ->
+  wf (bcontent joined) -> refines (bcontent joined) (bcontent (all_blocks files)) ->
+  fst (denote_files mode files root) = fst (denote_blocks mode joined).
+Proof.
+  intros Hnd Hall Hwf Href.
+  destruct (merge_partition_invariant files root joined Hnd Hall Hwf Href) as [H _].
+  unfold denote_files in *. rewrite !denote_blocks_content in *.
+  rewrite (fst_fold_mode mode PkUnion _ (∅, ∅) (∅, ∅) eq_refl), H.
+  apply fst_fold_mode. reflexivity.
+Qed.
+
+(* ---- and with the key recomputed per block (the code as found) the full statement is false ---- *)
+Local Open Scope positive_scope.
+Definition wit_app : appname := [5%positive].
+Definition wit_fa := FD 7 10 false [ET pk_tag].
+Definition wit_fb := FD 8 10 false [ET pk_tag].
+Definition wit_fc := FD 9 11 false [].
+Definition wit_joined : list block := [B wit_app None [] [MT true 6 [] [wit_fa; wit_fb; wit_fc]]].
+Definition wit_files : list filedesc :=
+  [(20%positive, ([21%positive], [B wit_app None [] [MT true 6 [] [wit_fa]]]));
+   (21%positive, ([], [B wit_app None [] [MT true 6 [] [wit_fb; wit_fc]]]))].
+
+Local Close Scope positive_scope.
+
+Lemma wit_hyps :
+  NoDup (map fst wit_files) /\ all_reached wit_files 20%positive = true /\
+  wf (bcontent wit_joined) /\ refines (bcontent wit_joined) (bcontent (all_blocks wit_files)).
+Proof.
+  split; [|split; [|split]].
+  - cbn. apply NoDup_cons. split; [|apply NoDup_singleton]. intros H. apply elem_of_list_singleton in H. discriminate.
+  - reflexivity.
+  - split.
+    + constructor; [|constructor; [constructor|constructor]]. constructor; [|constructor]. left. discriminate.
+    + constructor; [exact I|]. constructor; [|constructor]. cbn.
+      apply NoDup_cons. split; [intros H; apply elem_of_cons in H; destruct H as [H|H]; [discriminate|apply elem_of_list_singleton in H; discriminate]|].
+      apply NoDup_cons. split; [intros H; apply elem_of_list_singleton in H; discriminate|apply NoDup_singleton].
+  - cbn. (* [H; T(a,b,c)]  ~>  [H; T(a); H; T(b,c)] *)
+    eapply rf_trans; [apply rf_perm, perm_swap|].
+    eapply rf_trans; [apply (rf_split wit_app true 6%positive [] [wit_fa] [wit_fb; wit_fc])|].
+    eapply rf_trans; [apply (rf_reopen wit_app); eexists; split; [left; reflexivity|reflexivity]|].
+    apply rf_perm.
+    do 2 apply perm_skip. apply perm_swap.
+Qed.
+
+Theorem merge_fields_pk_refuted :
+  exists files root joined,
+    NoDup (map fst files) /\ all_reached files root = true /\
+    wf (bcontent joined) /\ refines (bcontent joined) (bcontent (all_blocks files)) /\
+    snd (denote_files PkReplace files root) !! (wit_app, 6%positive) = Some [8%positive] /\
+    snd (denote_blocks PkReplace joined) !! (wit_app, 6%positive) = Some [7%positive; 8%positive] /\
+    ~ Req (denote_files PkReplace files root) (denote_blocks PkReplace joined).
+Proof.
+  exists wit_files, 20%positive, wit_joined.
+  destruct wit_hyps as (H1 & H2 & H3 & H4). repeat (split; [assumption|]).
+  assert (Ha : snd (denote_files PkReplace wit_files 20%positive) !! (wit_app, 6%positive) = Some [8%positive]) by (vm_compute; reflexivity).
+  assert (Hb : snd (denote_blocks PkReplace wit_joined) !! (wit_app, 6%positive) = Some [7%positive; 8%positive]) by (vm_compute; reflexivity).
+  split; [exact Ha|]. split; [exact Hb|].
+  intros [_ H]. destruct (H (wit_app, 6%positive) 7%positive) as [_ H'].
+  assert (Hin : In 7%positive (default [] (snd (denote_blocks PkReplace wit_joined) !! (wit_app, 6%positive))))
+    by (vm_compute; left; reflexivity).
+  apply H' in Hin. vm_compute in Hin. destruct Hin as [Hin|[]]. discriminate.
+Qed.
+
+(* non-vacuity of the headline theorem's hypotheses, and the repaired code on the same witness *)
+Example wit_union_agrees :
+  snd (denote_files PkUnion wit_files 20%positive) !! (wit_app, 6%positive) = Some [7%positive; 8%positive]
+  /\ Req (denote_files PkUnion wit_files 20%positive) (denote_blocks PkUnion wit_joined).
+Proof.
+  split; [vm_compute; reflexivity|].
+  destruct wit_hyps as (H1 & H2 & H3 & H4). apply merge_partition_invariant; assumption.
+Qed.
+
+(* ------------------------------------------------------------------------------------------------ *)
+(* 8. re-opening an application never drops what earlier blocks declared                             *)
+Definition has_type (s : state) (an : appname) (n : name) : Prop := is_Some (a_types (cur_app (fst s) an) !! n).
+Definition has_ep (s : state) (an : appname) (k : epkey) : Prop := is_Some (a_eps (cur_app (fst s) an) !! k).
+Definition has_app (s : state) (an : appname) : Prop := is_Some (fst s !! an).
+
+Definition keeps_op (o : cellop) : Prop :=
+  match o with
+  | OHead _ => True
+  | OType _ g => forall t p, is_Some t -> is_Some (fst (g t p))
+  | OEp _ e => forall e0, is_Some e0 -> is_Some (e e0)
+  end.
+
+Lemma keeps_x mode x : keeps_op (x_op mode x).
+Proof.
+  destruct x as [| an table n a fs | an n a items | | |? [[? ?] ?]|]; cbn; try exact I; try (intros; eexists; reflexivity).
+  - intros t p _. unfold type_g. destruct (default (TRec table ∅ ∅) t); eexists; reflexivity.
+  - intros t p Ht. destruct items; [exact Ht|eexists; reflexivity].
+Qed.
+
+Lemma xstep_keeps mode s x an :
+  (has_app s an -> has_app (xstep mode s x) an) /\
+  (forall n, has_type s an n -> has_type (xstep mode s x) an n) /\
+  (forall k, has_ep s an k -> has_ep (xstep mode s x) an k).
+Proof.
+  destruct s as [m p]. unfold has_app, has_type, has_ep, xstep.
+  pose proof (keeps_x mode x) as Hk. set (o := x_op mode x) in *. set (an' := x_app x).
+  destruct (decide (an' = an)) as [->|Hne].
+  - split; [|split].
+    + intros _. unfold apply_op. destruct o; cbn [fst]; rewrite lookup_insert; eexists; reflexivity.
+    + intros n Hn. unfold apply_op. destruct o as [h|n' g|k e]; cbn [fst]; rewrite cur_app_insert; cbn [a_types]; try exact Hn.
+      destruct (decide (n' = n)) as [->|Hn'].
+      * rewrite lookup_partial_alter. apply Hk, Hn.
+      * rewrite lookup_partial_alter_ne by exact Hn'. exact Hn.
+    + intros k Hkk. unfold apply_op. destruct o as [h|n' g|k' e]; cbn [fst]; rewrite cur_app_insert; cbn [a_eps]; try exact Hkk.
+      destruct (decide (k' = k)) as [->|Hk'].
+      * rewrite lookup_partial_alter. apply Hk, Hkk.
+      * rewrite lookup_partial_alter_ne by exact Hk'. exact Hkk.
+  - assert (Hm : fst (apply_op an' o (m, p)) !! an = m !! an).
+    { unfold apply_op. destruct o; cbn [fst]; apply lookup_insert_ne, Hne. }
+    unfold cur_app. cbn [fst] in *. rewrite Hm. tauto.
+Qed.
+
+Lemma fold_keeps mode l an : forall s,
+  (has_app s an -> has_app (fold_left (xstep mode) l s) an) /\
+  (forall n, has_type s an n -> has_type (fold_left (xstep mode) l s) an n) /\
+  (forall k, has_ep s an k -> has_ep (fold_left (xstep mode) l s) an k).
+Proof.
+  induction l as [|x l IH]; intros s; cbn [fold_left]; [tauto|].
+  destruct (xstep_keeps mode s x an) as (H1 & H2 & H3). destruct (IH (xstep mode s x)) as (I1 & I2 & I3).
+  split; [auto|]. split; [intros n Hn; apply I2, H2, Hn|intros k Hk; apply I3, H3, Hk].
+Qed.
+
+(* whatever the blocks (any number of re-openings, any members, any mode): an application, a type or an endpoint
+   that exists after the blocks bs1 still exists after bs1 ++ bs2 *)
+Theorem reopen_keeps_maps mode bs1 bs2 an :
+  (has_app (denote_blocks mode bs1) an -> has_app (denote_blocks mode (bs1 ++ bs2)) an) /\
+  (forall n, has_type (denote_blocks mode bs1) an n -> has_type (denote_blocks mode (bs1 ++ bs2)) an n) /\
+  (forall k, has_ep (denote_blocks mode bs1) an k -> has_ep (denote_blocks mode (bs1 ++ bs2)) an k).
+Proof.
+  rewrite !denote_blocks_content. unfold bcontent, content. rewrite !flat_map_app, fold_left_app.
+  apply fold_keeps.
 Qed.
